@@ -143,24 +143,39 @@ class _Break(Exception):
     pass
 
 
-def run_ast(ast: list, rng: random.Random, k: int = 2) -> list:
-    """One structured run of a definition (vlib.puml AST without kill): a sequence of items,
-    item = ("ev", name) | ("par", [sequence, ...]).  XOR picks a branch, OR a non-empty
-    subset, loops run 1..k times, break leaves the innermost loop."""
+class _Chooser:
+    """choose(n) replays `prefix`, then takes 0 (enumeration) or a random value."""
+
+    def __init__(self, prefix: list[int], rng: random.Random | None = None) -> None:
+        self.prefix, self.rng, self.trace = prefix, rng, []
+
+    def choose(self, n: int) -> int:
+        if n <= 1:
+            return 0
+        pos = len(self.trace)
+        c = self.prefix[pos] if pos < len(self.prefix) else (
+            self.rng.randrange(n) if self.rng else 0)
+        self.trace.append([c, n])
+        return c
+
+
+def _run(ast: list, ch: _Chooser, k: int) -> list:
     def seq(s: list, acc: list) -> list:
         for st in s:
             kind = st[0]
             if kind == "ev":
                 acc.append(("ev", st[1]))
             elif kind == "xor":
-                seq(rng.choice(st[1]), acc)
+                seq(st[1][ch.choose(len(st[1]))], acc)
             elif kind == "and":
                 acc.append(("par", [seq(b, []) for b in st[1]]))
             elif kind == "or":
-                pick = [b for b in st[1] if rng.random() < 0.6] or [rng.choice(st[1])]
-                acc.append(("par", [seq(b, []) for b in pick]))
+                n = len(st[1])
+                mask = ch.choose(2 ** n - 1) + 1
+                acc.append(("par", [seq(b, []) for i, b in enumerate(st[1]) if mask >> i & 1]))
             elif kind == "loop":
-                for _i in range(rng.randint(1, k)):
+                n_iter = ch.choose(k) + 1
+                for _i in range(n_iter):
                     try:
                         seq(st[1], acc)
                     except _Break:
@@ -171,6 +186,36 @@ def run_ast(ast: list, rng: random.Random, k: int = 2) -> list:
                 raise ValueError("kill not supported in span trees")
         return acc
     return seq(ast, [])
+
+
+def run_ast(ast: list, rng: random.Random, k: int = 2) -> list:
+    """One random structured run of a definition (vlib.puml AST without kill): a sequence of
+    items, item = ("ev", name) | ("par", [sequence, ...]).  XOR picks a branch, OR a non-empty
+    subset, loops run 1..k times, break leaves the innermost loop."""
+    return _run(ast, _Chooser([], rng), k)
+
+
+def enumerate_runs(ast: list, k: int = 2, cap: int = 60) -> list[list] | None:
+    """Every structured run (loops 1..k), de-duplicated; None above `cap`."""
+    seen: dict[str, list] = {}
+    prefix: list[int] | None = []
+    n = 0
+    while prefix is not None:
+        ch = _Chooser(prefix)
+        run = _run(ast, ch, k)
+        seen.setdefault(json.dumps(run), run)
+        n += 1
+        if len(seen) > cap or n > cap * 20:
+            return None
+        tr = ch.trace
+        while tr and tr[-1][0] + 1 >= tr[-1][1]:
+            tr.pop()
+        if not tr:
+            prefix = None
+        else:
+            tr[-1][0] += 1
+            prefix = [c for c, _ in tr]
+    return list(seen.values())
 
 
 def valid_run(run: list) -> bool:
